@@ -408,7 +408,8 @@ func (e *Enc) applyContract(fr *Frame, ct *FuncContract, fn *ssa.Function, sig *
 		}
 	}
 	var res []Val
-	if ct.Pure {
+	if ct.Pure && ct.Opts["uf"] == "1" {
+		// declared to be a function of its argument values only
 		res = e.pureUF(who, args, sig)
 	} else {
 		res = e.freshResults(sig, name)
@@ -450,6 +451,12 @@ func (e *Enc) havocLvalue(sc *Scope, x CExpr, st *State) {
 	switch n := x.(type) {
 	case *CSel:
 		base := e.eval(sc, n.X, nil)
+		if gf := e.prog.ghostField(base.Typ, n.Name); gf != nil {
+			h, key, s := e.ghostFieldHeap(sc, st, base.Typ, gf)
+			st.H[key] = e.define(Store(h, base.L[0], e.declare(s, "ghost_"+gf.Name)), "X")
+			e.markWrite(key)
+			return
+		}
 		pt, ok := base.Typ.Underlying().(*types.Pointer)
 		if !ok {
 			panic(unsupported("modifies target must go through a pointer: " + x.String()))
